@@ -51,6 +51,30 @@ CHECKS = {
         note="As C02. CPython 3.13's Bytecode also labels exception-range boundaries (a listing device); the oracle uses get_instructions there.",
         technique="TLA+ jump-target semantics; TLC model checking + behaviour replay + trace validation against xdis and CPython",
     ),
+    "C05": dict(
+        category="model_checking",
+        text="Spec S4/S6 (LineTables.tla) is one reader state machine for the six line-table eras (unsigned lnotab 1.5-3.5, signed 3.6-3.7, "
+             "signed with cut-off 3.8-3.9, 3.10 range table, 3.11/3.12 location table, 3.13 with None starts) plus Offset2Line. TLC model-checks "
+             "reader invariants over every generated table (LineTablesMC.tla), exports the tables, which are replayed into xdis portable code "
+             "objects of each era and into the CPython of the era, and judges (LineTablesTrace.tla) findlinestarts order and values, offset2line "
+             "queries, co_lines() ranges and the instruction stream's starts_line for every code object of the corpus and of modules compiled "
+             "by all nine interpreters. CPython's own answers are validated against the same spec in every run.",
+        design_ref="DESIGN.md section 5 C05, specs S4 S6",
+        note="Well-formedness assumed of tables: positive lines, range tables cover the code, pre-3.8 lnotab entries stay inside the code. "
+             "Known finding: Bytecode's dup_lines=True default (see known_findings.json).",
+        technique="TLA+ line-table reader machines; TLC model checking, generated tables replayed into xdis and CPython, TLC trace validation",
+    ),
+    "C17": dict(
+        category="model_checking",
+        text="Location table: the S6 part of LineTables.tla (five entry forms, little-endian 6-bit varints, signed deltas, long-form columns +1) "
+             "judged per code unit against Code311.co_lines()/co_positions(). Exception table: ExcTable.tla (big-endian 6-bit varints, four fields) "
+             "model-checked with its writer (ExcTableMC.tla round trip, truncated prefixes) and used as judge (ExcTableTrace.tla) for "
+             "parse_exception_table, Bytecode.exception_entries and format_exception_table rows, on generated tables (every field at varint "
+             "lengths 1-3, padded encodings) and on all 3.11-3.13 code objects of corpus and producers; CPython 3.11-3.13 validate both specs.",
+        design_ref="DESIGN.md section 5 C17, specs S5 S6",
+        note="co_lines() is compared per code unit (3.11 and 3.12 partition ranges differently). Trusted: TLC, projections (rec_lines.py, rec_exc.py).",
+        technique="TLA+ varint/entry reader machines; TLC model checking of writer+reader, behaviours replayed into xdis and CPython, trace validation",
+    ),
 }
 
 NOT_YET = "check not built yet in this round (planned: see DESIGN.md section 5); not claimed until its machinery exists"
